@@ -102,7 +102,7 @@ def prep_run_physical(
                 bound_call.value.run(node.fn, retry)
             except Exception as exception:
                 # Drop internal frames
-                exception.__traceback__ = exception.__traceback__.tb_next.tb_next
+                exception.with_traceback(exception.__traceback__.tb_next.tb_next)
                 progress_observer.increment_failed(
                     section="run",
                     scope=scope,
